@@ -13,6 +13,7 @@ from typing import Any
 
 from . import simenv
 from .core import Capture, describe_exc, scrub
+from . import blocking
 from .stepclock import StepBudgetExceeded, run_clocked
 
 
@@ -173,7 +174,11 @@ def run_exec(root: str, spec: dict[str, Any], roles: dict[str, str], knobs: dict
         except Exception:  # noqa: BLE001
             pass
     with cap, env:
-        value, exc, steps, timed_out = run_clocked(call, spec.get("budget", DEFAULT_BUDGET))
+        blocking.arm()
+        try:
+            value, exc, steps, timed_out = run_clocked(call, spec.get("budget", DEFAULT_BUDGET))
+        finally:
+            blocking.disarm()
     sys.argv = saved_argv
 
     out: dict[str, Any] = {"entry": entry, "steps": steps, "max_loop_span": guard["max_span"]}
@@ -189,6 +194,8 @@ def run_exec(root: str, spec: dict[str, Any], roles: dict[str, str], knobs: dict
                 frames.append(f"{os.path.basename(co.co_filename)}:{co.co_qualname}")
             tb = tb.tb_next
         out["stuck_in"] = frames[-3:]
+        if blocking.blocked_calls:
+            out["blocked"] = blocking.blocked_calls[0]
     elif isinstance(exc, SystemExit):
         out["kind"] = "exit"
         code = exc.code
